@@ -166,7 +166,14 @@ let run_open toks =
                 Recovery.c_allow_ambiguous = (opt "allow" rest "0" = "1");
                 Recovery.c_now = (if opt "ttl" rest "0" = "1" then Some (n_of_string (opt "now" rest "0")) else None);
                 Recovery.c_recsize = n_of_string (opt "recsize" rest "0") } in
-    open_result_string img (Recovery.open_image cfg img)
+    let r = Recovery.open_image cfg img in
+    (match Sys.getenv_opt "VERIF_DUMP_POST" with
+     | Some out ->
+       let oc = open_out_bin out in
+       Stdlib.List.iter (fun b -> Stdlib.List.iter (fun x -> output_char oc (Char.chr (int_of_n x))) b) (snd r);
+       close_out oc
+     | None -> ());
+    open_result_string img r
   | _ -> failwith "open: missing path"
 
 (* ---------- pure codec functions ---------- *)
@@ -412,10 +419,53 @@ let run_lww toks =
         end) ops;
     Stdlib.String.concat " | " (Stdlib.List.rev !outs)
 
+(* ---------- monitor: a real device trace must follow the journal discipline ---------- *)
+let run_monitor toks =
+  match toks with
+  | base :: _ ->
+    let lines = Stdlib.String.split_on_char '\n' (read_file (base ^ ".trace")) in
+    let data = read_file (base ^ ".data") in
+    let total = ref N0 in
+    let evs = ref [] in
+    let nev = ref 0 in
+    let bytes_at at len = Stdlib.List.init len (fun i -> byte_table.(Char.code data.[at + i])) in
+    Stdlib.List.iter (fun l ->
+        let t = split_on ' ' l in
+        match t with
+        | "BLOCKS" :: b :: _ -> total := n_of_string b
+        | _ :: "W" :: rest when opt "applied" rest "0" = "1" ->
+          incr nev;
+          let off = int_of_string (opt "off" rest "0") and len = int_of_string (opt "len" rest "0")
+          and at = int_of_string (opt "at" rest "0") in
+          let block = off / 4096 in
+          if block = 0 || block = 7 then begin
+            match MetaJournal.decode_meta (bytes_at at len) with
+            | Some m -> evs := Monitor.MMeta (block = 7, m.MetaJournal.m_generation) :: !evs
+            | None -> evs := Monitor.MMetaBad :: !evs
+          end else if block >= 1 && block < 7 then begin
+            let slot = (block - 1) / 3 in
+            if (block - 1) mod 3 <> 0 then evs := Monitor.MJournalBad (n_of_int slot) :: !evs
+            else begin
+              let img = bytes_at at len @ Stdlib.List.init (max 0 (12288 - len)) (fun _ -> N0) in
+              match MetaJournal.decode_slot img !total with
+              | Some (g, exts) -> evs := Monitor.MJournal (n_of_int slot, g, exts <> [], exts) :: !evs
+              | None -> evs := Monitor.MJournalBad (n_of_int slot) :: !evs
+            end
+          end else
+            evs := Monitor.MData (n_of_int block, n_of_int (len / 4096)) :: !evs
+        | _ :: "F" :: rest ->
+          incr nev;
+          evs := Monitor.MFsync (opt "ok" rest "0" = "1") :: !evs
+        | _ -> ()) lines;
+    (match Monitor.mrun Monitor.minit (Stdlib.List.rev !evs) N0 with
+     | (Monitor.Accept _, _) -> Stdlib.Printf.sprintf "accepted events=%d" !nev
+     | (Monitor.Reject w, i) -> Stdlib.Printf.sprintf "rejected rule=%s at-device-event=%s" (string_of_n w) (string_of_n i))
+  | _ -> failwith "monitor: missing trace"
+
 let run_note _ = "note"
 
 let handlers : (string * (string list -> string)) list ref =
-  ref [ ("fs", run_fs); ("open", run_open); ("note", run_note); ("codec", run_codec); ("readdev", run_readdev); ("lww", run_lww) ]
+  ref [ ("fs", run_fs); ("open", run_open); ("note", run_note); ("codec", run_codec); ("readdev", run_readdev); ("lww", run_lww); ("monitor", run_monitor) ]
 
 
 let () =
